@@ -87,7 +87,8 @@ CLAIMED = {
         "design": "DESIGN.md sections 0a, 6, 11 (C03)",
         "note": TB + "Outside strict_domb the guarantee is false: C03_reference_tie_refuted, "
                 "C03_nonliteral_overlap_refuted, C03_keep_less_specific_false_refuted (findings C03-F1, C03-F2, "
-                "C03-F3, known).  Disjunctions and thresholds other than 0 are outside the domain.  Also trusted: "
+                "C03-F3, known); C03-F4 (a repeated typing statement makes references to that class count twice; observed with "
+                "the extracted validator on the set of triples).  Disjunctions and thresholds other than 0 are outside the domain.  Also trusted: "
                 "the ShExC canonicaliser that feeds the extracted validator.  The harness mirrors strict_domb in "
                 "Python and compares it with Coq's on every case; after a generator change the two disagreed (two "
                 "literals differing only in their language tag) and the check stopped with INTERNAL-ERROR on every "
@@ -149,7 +150,8 @@ CLAIMED = {
         "note": TB + "Known findings, each refuted in Coq: C05-F1 (custom shapes_namespace: dangling references, pinned "
                 "by golden files; C05_custom_namespace_refuted), C05-F2 (shared local names: one label twice; "
                 "C05_shared_local_name_refuted), C05-F3 (a parsed prefix already in use is declared twice; "
-                "C05_parsed_prefix_collision_rejected, Spec level).  The random prefix fallback and prefixes adopted "
+                "C05_parsed_prefix_collision_rejected, Spec level), C05-F4 (ignored typing constraints + "
+                "remove_empty_shapes: reference to a class whose shape was emptied; observed).  The random prefix fallback and prefixes adopted "
                 "from rdflib-parsed input are oracle-only; the theorems speak of class-mode runs (shape-map texts "
                 "are corresponded and judged by the oracle).  Trusted: the Spec recogniser (a subset of the "
                 "grammar).",
